@@ -59,14 +59,17 @@ func (m *termMonitor) wait(termOnNoHandlers bool) os.Signal {
 	// number of pending handlers has hit 0.  In the case of the
 	// latter, treat it as if a SIGTERM has been received.
 	for {
+		// Check before blocking, so that a request to terminate when there
+		// are no handlers completes even if no handler was active (and thus
+		// no further event will arrive) at the time of the call.
+		if termOnNoHandlers && m.numHandlers == 0 {
+			return syscall.SIGTERM
+		}
 		select {
 		case n := <-m.handlerChan:
 			m.numHandlers += n
 		case sig := <-m.sigChan:
 			return sig
-		}
-		if termOnNoHandlers && m.numHandlers == 0 {
-			return syscall.SIGTERM
 		}
 	}
 }
